@@ -112,9 +112,9 @@ def check(events, nprocs):
 def dyn_text(events, cid):
     """input block for `sludrv dynslots`: the reservations (hook 19: DynamicSetMap leader, count, nextlu before) and the L-supernode
     allocations (hook 20: Glu_alloc(LUSUP) leader, request, offset returned) of one run in the dynamic storage scheme, in log order"""
-    ev = [(k, a, b, c) for (k, p, a, b, c) in events if k in (19, 20)]
-    res = [e for e in ev if e[0] == 19]
+    ev = [(k, a, b, c) for (k, p, a, b, c) in events if k in (19, 20, 21)]
+    res = [e for e in ev if e[0] in (19, 21)]      # 21: a relaxed supernode laid out by ?PresetMap (leader, room reserved, offset) -- the same bump rule
     if not res:
         return None
-    lines = ["%s %d %d %d" % ("r" if k == 19 else "a", a, b, c) for (k, a, b, c) in ev]
+    lines = ["%s %d %d %d" % ("a" if k == 20 else "r", a, b, c) for (k, a, b, c) in ev]
     return "case %s %d %d\n%s\n" % (cid, res[0][3], len(lines), "\n".join(lines))
